@@ -236,3 +236,93 @@ Example C04_x_ex :
   conservation_x_test PFifo es [] [] ops = true /\
   match run_hist_x all_rep q0 ops with Some (q, tev) => q_empty q && negb (zlen (nd_events tev) =? 0) | None => false end = true.
 Proof. vm_compute. repeat split; reflexivity. Qed.
+
+From PV Require Import Queue.TieLib Queue.TieLibC04 gen.QueueStepGen Queue.ProofsTie Queue.ProofsTieC04.
+
+(* ======================================================================================
+   TRANSLATOR TIE (see the same section of Props/C02.v).  gen/QueueStepGen.v is regenerated from psiaudio/queue.py on
+   every run; it now also holds the pause / resume path - _ends_after, rewind_samples, cancel, requeue (base class and
+   the interleaved override, dispatched as the class hierarchy of the source says), pause, resume - statement by
+   statement, times read as sample numbers.  `mk q ev` is the queue object: the model's state and the notifications
+   delivered so far; g_hist runs a history with the GENERATED pop_buffer / pause / resume (None = an exception escaped).
+   Proofs: coq/Queue/ProofsTieC04.v.
+   ====================================================================================== *)
+
+(* pause(t) of the source is the model's pause with every repair on: same state, the removed notifications appended,
+   or ValueError with the object untouched - in every state whose logged keys have their stimulus dicts *)
+Theorem C04_source_pause : forall q ev t, log_keys_ok q ->
+  g_pause (mk q ev) t =
+  let '(q', evs, err) := pause all_rep q t in
+  if err then GRaise EValueError (mk q ev) else GOk (mk q' (ev ++ evs)) tt.
+Proof. exact tie_pause. Qed.
+Print Assumptions C04_source_pause.
+
+(* that hypothesis is needed (source: KeyError half-way through; model: nobody gets the trial back) *)
+Theorem C04_source_pause_refuted : exists q s q' evs, ~ log_keys_ok q /\
+  g_pause (mk q []) (Some 0) = GRaise EKeyError s /\ pause all_rep q (Some 0) = (q', evs, false).
+Proof. exact tie_pause_refuted. Qed.
+Print Assumptions C04_source_pause_refuted.
+
+(* resume(t), in ANY state *)
+Theorem C04_source_resume : forall q ev t, g_resume (mk q ev) t = GOk (mk (resume q t) ev) tt.
+Proof. exact tie_resume. Qed.
+Print Assumptions C04_source_resume.
+
+(* a history run with the generated methods is the model's history *)
+Theorem C04_source_history_is_model_history : forall p es ch pm ops self,
+  wf_queue p es = true -> oracle_ok p pm ->
+  g_hist (mk (qinit p es ch pm) []) ops = Some self ->
+  run_hist all_rep (qinit p es ch pm) ops = Some (o_q self, o_ev self).
+Proof. exact source_hist_is_model_hist. Qed.
+Print Assumptions C04_source_history_is_model_history.
+
+(* C04_conservation over generated histories *)
+Theorem C04_source_conservation : forall p es ch pm ops self,
+  wf_queue p es = true -> oracle_ok p pm -> wf_hist all_rep (qinit p es ch pm) ops = true ->
+  g_hist (mk (qinit p es ch pm) []) ops = Some self ->
+  (forall k t0, zlen (filter (eqb_pairZ (k, t0)) (live_of (o_q self))) =
+                zlen (filter (eqb_pairZ (k, t0)) (added_of (o_ev self)))
+                - zlen (filter (eqb_pairZ (k, t0)) (removed_of (o_ev self)))) /\
+  (forall k e, znth es k = Some e -> trials_of (q_data (o_q self)) k + net_presented k (o_ev self) = e_requested e).
+Proof. exact source_conservation. Qed.
+Print Assumptions C04_source_conservation.
+
+(* C04_at_empty over generated histories *)
+Theorem C04_source_at_empty : forall p es ch pm ops self,
+  wf_queue p es = true -> oracle_ok p pm -> wf_hist all_rep (qinit p es ch pm) ops = true ->
+  g_hist (mk (qinit p es ch pm) []) ops = Some self -> q_empty (o_q self) = true ->
+  forall k e, znth es k = Some e ->
+    if exact_policy p then net_presented k (o_ev self) = e_requested e else e_requested e <= net_presented k (o_ev self).
+Proof. exact source_at_empty. Qed.
+Print Assumptions C04_source_at_empty.
+
+(* C04_pause_exact: the generated pause(t) after a generated history *)
+Theorem C04_source_pause_exact : forall p es ch pm ops self t,
+  wf_queue p es = true -> oracle_ok p pm -> wf_hist all_rep (qinit p es ch pm) ops = true ->
+  g_hist (mk (qinit p es ch pm) []) ops = Some self -> 0 <= t <= q_samples (o_q self) ->
+  exists self', g_pause self (Some t) = GOk self' tt /\
+    o_ev self' = o_ev self ++ map (fun i => ERemoved (i_key i) (i_t0 i))
+                                  (filter (fun i => ends_after i t) (rev (q_generated (o_q self)))) /\
+    q_generated (o_q self') = filter (fun i => negb (ends_after i t)) (q_generated (o_q self)) /\
+    q_samples (o_q self') = t /\ q_paused (o_q self') = true /\ q_source (o_q self') = None /\ q_delay (o_q self') = 0 /\
+    (forall k, trials_of (q_data (o_q self')) k =
+               trials_of (q_data (o_q self)) k +
+               countZ k (map i_key (filter i_dec (filter (fun i => ends_after i t) (q_generated (o_q self)))))).
+Proof. exact source_pause_exact. Qed.
+Print Assumptions C04_source_pause_exact.
+
+(* C04_future_pause_rejected: ValueError and the object untouched, in ANY state *)
+Theorem C04_source_future_pause_rejected : forall self t,
+  q_samples (o_q self) < t -> g_pause self (Some t) = GRaise EValueError self.
+Proof. exact source_future_pause_rejected. Qed.
+Print Assumptions C04_source_future_pause_rejected.
+
+Example C04_source_ex :
+  let es := [mk_entry 2 3 KArray [2] true; mk_entry 1 2 KGen [1] true] in
+  let ops := [Pop 7; Pause (Some 4); Pop 3; Resume (Some 6); Pop 9; Pause (Some 8); Resume (Some 8); Pop 60] in
+  wf_queue PFifo es = true /\ oracle_ok PFifo [] /\ wf_hist all_rep (qinit PFifo es [] []) ops = true /\
+  match g_hist (mk (qinit PFifo es [] []) []) ops with
+  | Some self => q_empty (o_q self) && (net_presented 0 (o_ev self) =? 2) && (net_presented 1 (o_ev self) =? 1)
+  | None => false
+  end = true.
+Proof. exact source_c04_ex. Qed.
